@@ -73,6 +73,8 @@ func init() {
 		v := e.X(cw, rets[0].Results[0])
 		o.Site(rets[0], "wait = "+v)
 		o.Check(v == "(conv:time.Duration((*am/cluster.Peer).Position(^p0)) * ^p1)" || v == "(^p1 * conv:time.Duration((*am/cluster.Peer).Position(^p0)))", "cw-shape", "the cluster wait must be position × peer timeout, is "+v, rets[0])
+		// evaluated at every call: the membership, and with it the position, changes while the instance runs
+		o.Check(len(e.Calls(cw, "(*am/cluster.Peer).Position")) == 1, "cw-live", "the position must be looked up each time the wait is asked for (a value captured when the function was built is stale after the first membership change)", rets[0])
 		// timeoutFunc literal in setup: the one returning  phi(MinTimeout|p0) + waitFunc()
 		setup := o.Fn("(*am/app.App).setup")
 		min, ok := e.ConstInt("am/notify", "MinTimeout")
